@@ -848,7 +848,7 @@ def _typed_name(name):
     the axis rules read them, so they are kept as named definitions."""
     from .axes import axis_of_text
     n = name.lower()
-    if axis_of_text(name) is not None or 'trace' in n or 'header' in n or 'shape' in n or 'rate' in n or 'bits' in n:
+    if axis_of_text(name) is not None or 'trace' in n or 'header' in n or 'shape' in n:
         return True
     try:
         from .axes import role_of
